@@ -273,11 +273,13 @@ class MaskCombinator(Generic[R], GenerativeFunction[Mask[R]]):
         if FlagOp.concrete_false(check):
             # Nothing is sampled (the trace's choice map is empty): score 0 and an invalid
             # return value, without asking the inner function for choices.
-            return jnp.zeros(()), Mask(self.gen_fn.__abstract_call__(*inner_args), check)
+            return jnp.zeros(()), Mask.build(
+                self.gen_fn.__abstract_call__(*inner_args), check
+            )
         score, retval = self.gen_fn.assess(sample, inner_args)
         return (
             check * score,
-            Mask(retval, check),
+            Mask.build(retval, check),
         )
 
 
